@@ -1067,7 +1067,9 @@ func (s *vKindSys) observeMulti(h []string) {
 	}
 }
 
-func (s *vKindSys) Key() string {
+func (s *vKindSys) Key() string { return s.keyCanon() + "#deep" + vDeepHash(s.idx) }
+
+func (s *vKindSys) keyCanon() string {
 	return vCanonVec(s.idx) + "#" + s.m.key()
 }
 
